@@ -841,6 +841,32 @@ def apply_edit(run, rng, pyrng, scene, sm, kind, serial):
         f.update(name, p, M, geometry=gname)
         return {"edit": kind, "node": name, "parent": p, "geometry": gname, "kind": k, "V": gm.V.tolist(),
                 "F": None if gm.F is None else gm.F.tolist(), "matrix": M.tolist()}
+    if kind == "alias_geometry":
+        # the SAME geometry object registered under a second name and instanced through it: an
+        # in-place edit of the object is then an edit of every geometry name that refers to it
+        placed = sorted({g for g in f.geometry.values() if g in sm.geoms})
+        if not placed:
+            return None
+        g = pyrng.choice(placed)
+        alias = "k%d" % serial
+        parents = [None] + [n for n in f.nodes if n != f.base and f.depth(n) < 4 and f.world(n) is not None]
+        p = pyrng.choice(parents)
+        name = "z%d" % serial
+        M = edge_matrix(rng, "general", 1.0)
+        scene.add_geometry(scene.geometry[g], node_name=name, geom_name=alias, parent_node_name=p, transform=M.copy())
+        sm.geoms[alias] = sm.geoms[g]
+        sm.prefer = g if pyrng.random() < 0.5 else alias
+        f.update(name, p, M, geometry=alias)
+        return {"edit": kind, "geometry": g, "alias": alias, "node": name, "parent": p, "matrix": M.tolist()}
+    if kind == "swap_names":
+        placed = sorted({g for g in f.geometry.values() if g in sm.geoms})
+        pairs = [(a, b) for a in placed for b in placed if a < b and sm.geoms[a] is not sm.geoms[b]]
+        if not pairs:
+            return None
+        a, b = pyrng.choice(pairs)
+        scene.geometry[a], scene.geometry[b] = scene.geometry[b], scene.geometry[a]
+        sm.geoms[a], sm.geoms[b] = sm.geoms[b], sm.geoms[a]
+        return {"edit": kind, "a": a, "b": b}
     if kind == "delete_geometry":
         placed = sorted({g for g in f.geometry.values() if g in sm.geoms})
         if len(placed) < 2:
@@ -855,6 +881,8 @@ def apply_edit(run, rng, pyrng, scene, sm, kind, serial):
     if not placed:
         return None
     g = pyrng.choice(placed)
+    if getattr(sm, "prefer", None) in placed and pyrng.random() < 0.7:
+        g = sm.prefer  # the object that is known under two names
     gm, real = sm.geoms[g], scene.geometry[g]
     if kind == "vertex_setitem":
         d = np.round(rng.uniform(0.5, 2.0, size=gm.V.shape[1]), 3)
@@ -922,6 +950,15 @@ def replay_edit(scene, sm, rec):
         f.remove_geometries([rec["geometry"]])
         del sm.geoms[rec["geometry"]]
         sm.deleted_geometry = True
+    elif k == "alias_geometry":
+        scene.add_geometry(scene.geometry[rec["geometry"]], node_name=rec["node"], geom_name=rec["alias"],
+                           parent_node_name=rec["parent"], transform=M.copy())
+        sm.geoms[rec["alias"]] = sm.geoms[rec["geometry"]]
+        f.update(rec["node"], rec["parent"], M, geometry=rec["alias"])
+    elif k == "swap_names":
+        a, b = rec["a"], rec["b"]
+        scene.geometry[a], scene.geometry[b] = scene.geometry[b], scene.geometry[a]
+        sm.geoms[a], sm.geoms[b] = sm.geoms[b], sm.geoms[a]
     else:
         g = rec["geometry"]
         gm, real = sm.geoms[g], scene.geometry[g]
@@ -945,7 +982,8 @@ def replay_edit(scene, sm, rec):
 
 
 EDITS = ("edge_update", "edge_update", "reparent", "remove_leaf", "add_instance", "add_geometry", "delete_geometry",
-         "vertex_setitem", "vertex_setitem", "vertex_imul", "geom_transform", "geom_replace")
+         "vertex_setitem", "vertex_setitem", "vertex_imul", "geom_transform", "geom_replace",
+         "alias_geometry", "alias_geometry", "swap_names")
 
 
 # ----------------------------------------------------------------------------
@@ -1281,7 +1319,7 @@ def run_derived(run, scene, sm, op, cls, par, case, worlds):
 # one scenario
 
 
-def scenario(run, tag, spec, rng, pyrng, n_edits, battery=False, recorded_edits=None):
+def scenario(run, tag, spec, rng, pyrng, n_edits, battery=False, recorded_edits=None, forced=None):
     scene, sm = build(spec)
     case = {"spec": spec_to_json(spec), "edits": [], "tag": tag, "battery": battery}
     reads_all = list(READS)
@@ -1295,7 +1333,7 @@ def scenario(run, tag, spec, rng, pyrng, n_edits, battery=False, recorded_edits=
         serial += 1
         pre_now = dict(scene._cache.cache)  # raw entries (objects) cached before this edit
         if rec is None:
-            kind = pyrng.choice(EDITS)
+            kind = forced[serial - 1] if forced else pyrng.choice(EDITS)
             try:
                 rec = apply_edit(run, rng, pyrng, scene, sm, kind, serial)
             except Exception as e:
@@ -1386,11 +1424,18 @@ def workload(run):
         idx += 1
         if not run.mine(idx):
             continue
-        if run.out_of_time(0.5):
+        if run.out_of_time(0.65):
             run.inconclusive("fixed battery did not finish within the budget")
             break
         for n_edits in (0, 2):
             scenario(run, tag, spec, run.rng, run.pyrng, n_edits, battery=True)
+        # one geometry object under two names edited in place; two geometries trading names
+        F = (("alias_geometry", "vertex_imul"), ("alias_geometry", "vertex_setitem"),
+             ("alias_geometry", "geom_transform"), ("swap_names",),
+             ("alias_geometry", "swap_names", "vertex_imul"))
+        for forced in (F[idx % 5],):
+            if not run.out_of_time(0.6):
+                scenario(run, tag + ":shared_object", spec, run.rng, run.pyrng, len(forced), battery=True, forced=forced)
     run.note("battery_seconds", round(run.elapsed(), 1))
     k = 0
     while not run.out_of_time(0.93):
